@@ -20,5 +20,6 @@ CONSTANTS
   BugContES = FALSE
   BugPadCredit = FALSE
   EncodeAtEnqueue = TRUE
+  BugZeroCostHeld = FALSE
 INVARIANTS WithinGrant WithinMaxFrame CreditReturned NoEligibleQueued LedgerAgrees PrefixFidelity HpackInOrder
 CHECK_DEADLOCK FALSE
